@@ -84,3 +84,33 @@ def oracle_selfcheck(check, vh, module, live):
         raise Inconclusive("the TLA+ oracle disagrees with %d labelled suite instances, e.g. %s" % (len(bad), json.dumps(bad[0])[:600]))
     check.coverage["oracle_suite_labels_agreed"] = meta["events"]
     return [f for f in fails if f["clause"] != "suite-label"], meta
+
+
+def run_traces(check, vh, name, cmd_args, module, devs, on_fail, timeout=7200, jobs=None):
+    """Drive the real code (one harness run), validate every recorded chunk with TLC, hand fails to on_fail."""
+    wd = common.workdir("%s-%s" % (check.prop, name))
+    common.run([vh] + [str(a) for a in cmd_args] + ["-out", wd], timeout=timeout)
+    meta = json.load(open(os.path.join(wd, "meta.json")))
+    cks = chunks(wd)
+    for r, fails in common.parallel(lambda c: eval_chunk(c, module, sorted(devs)), cks, jobs=jobs):
+        check.add_tlc(r)
+        on_fail(fails)
+    check.coverage["evaluations"] += meta.get("runs", meta["events"])
+    check.coverage["distinct_nontrivial"] += meta.get("distinct_nontrivial", 0)
+    check.coverage["traces_validated_against_impl"] += len(cks)
+    check.coverage["samples"] += meta.get("samples", [])[:2]
+    return meta
+
+
+def simple_violations(check, family):
+    def on_fail(fails):
+        seen = set()
+        for f in fails:
+            dev = f.get("dev", "")
+            key = json.dumps(f["input"], sort_keys=True) + f["clause"]
+            if key in seen:
+                continue
+            seen.add(key)
+            check.violation(dict(family=family, clause=f["clause"], expected=f.get("want"), got=f.get("got"), input=f["input"]),
+                            "%s: expected %s, got %s" % (f["clause"], f.get("want"), f.get("got")))
+    return on_fail
